@@ -34,6 +34,13 @@ def draw(rng, trivial=False, special=False):
             yc = zc = 0.0
         if rng.random() < 0.2:
             tth = math.radians(rng.choice([30.0, 45.0, 60.0]))
+        if rng.random() < 0.25:
+            # beyond the box of the quantifier, where the statement ("for every distance ...") still applies: back-scattering
+            # (2theta > 90 deg, cos 2theta < 0), with the detector up-stream (negative distance) in half of these; the identities are
+            # pure algebra there, a quantity rebuilt as +sqrt(1 - sin^2) is not
+            tth = math.radians(rng.uniform(92.0, 150.0))
+            if rng.random() < 0.5:
+                L = -L
     return dict(tth=tth, eta=eta, tilt=tilt, L=L, py=py, pz=pz, yc=yc, zc=zc, t=t, lam=lam)
 
 
